@@ -40,7 +40,8 @@ from vf.core import Violation, as_violation, drive, pymoca_frame
 ID = "C26"
 LEVEL = "exploration"
 RULE = (
-    "Hypothesis draws abstract invocations over a fixed scratch tree (layout v1: 17 files in 9 "
+    "Hypothesis draws abstract invocations over a scratch tree that is fixed except for one file whose content (valid / "
+    "syntax error / another model) is rewritten before each invocation of the same process (layout v1: 18 files in 10 "
     "directories): 1-3 pairwise non-overlapping PATH args (existing files / directories / missing "
     "paths / a non-.mo file / an empty directory), -o in {existing dir, omitted, dir in which "
     "<Model>.py cannot be written, missing dir, regular file}, 0-2 -O (well-formed incl. real "
@@ -105,8 +106,15 @@ LAYOUTS = {
             "enc/Enc.mo": (ENCODING, b'model Enc Real x "\xff\xfe"; end Enc;\n'),
             "enc/GoodE.mo": (GOOD, "model GoodE Real x; equation der(x) = 1; end GoodE;\n"),
             "notes.txt": (OTHER, "not a Modelica file\n"),
+            # a file whose content changes between invocations of the same process (case["flip"])
+            "edit/Flip.mo": (GOOD, "model Flip Real x; equation der(x) = 1; end Flip;\n"),
         },
-        "dirs": [".", "lib", "lib/sub", "dup", "flat", "app", "syn", "mix", "enc", "empty"],
+        "mutable": {"edit/Flip.mo": {
+            "good": "model Flip Real x; equation der(x) = 1; end Flip;\n",
+            "syntax": "model Flip Real x equation end Flip;\n",
+            "other": "model Flop Real y; equation der(y) = 2; end Flop;\n",
+        }},
+        "dirs": [".", "lib", "lib/sub", "dup", "flat", "app", "syn", "mix", "enc", "empty", "edit"],
         "missing": ["nowhere", "lib/Missing.mo", "ghost/sub"],
         # models whose <Model>.py is a directory inside the "blocked" output dir
         "blocked": ["Good1", "Good3", "Good5", "UsesGood1", "Pkg.Inner"],
@@ -123,7 +131,7 @@ LAYOUTS = {
 DEFAULT_LAYOUT = "v1"
 
 MODELS_OK = ["Good1", "Good2", "Good3", "Good4", "Good5", "GoodM", "GoodE", "Pkg.Inner", "Pkg", "Inner2"]
-MODELS_CTX = ["UsesGood1"]  # succeeds or fails depending on what else is on the PATHs
+MODELS_CTX = ["UsesGood1", "Flip", "Flop"]  # succeed or fail depending on what else is on the PATHs / what edit/Flip.mo holds
 MODELS_BAD = ["BadClass", "BadMod", "Nope", "Syn1"]
 
 OPTS_GOOD = [
@@ -147,6 +155,13 @@ ARGERRS = ["no_path", "t_without_m", "bad_target", "m_no_value"]
 # --------------------------------------------------------------------------
 def _is_under(path, d):
     return d == "." or path == d or path.startswith(d + "/")
+
+
+def file_kind(layout, f, case=None):
+    """Kind of a planted file for this invocation (the mutable file follows case["flip"])."""
+    if f in layout.get("mutable", {}) and case is not None:
+        return SYNTAX if case.get("flip", "good") == "syntax" else GOOD
+    return layout["files"][f][0]
 
 
 def token_kind(layout, tok):
@@ -229,7 +244,7 @@ def invocations(draw, layout_name=DEFAULT_LAYOUT):
     files = sorted(layout["files"])
     good_files = [f for f in files if layout["files"][f][0] == GOOD]
     bad_files = [f for f in files if layout["files"][f][0] in (SYNTAX, ENCODING)]
-    good_dirs = ["lib", "lib/sub", "dup", "flat", "app"]
+    good_dirs = ["lib", "lib/sub", "dup", "flat", "app", "edit", "edit"]
     bad_dirs = ["syn", "mix", "enc", "."]
     if flavour == "nofiles":
         tok = _weighted([("notes.txt", 1), ("empty", 1)])
@@ -296,6 +311,7 @@ def invocations(draw, layout_name=DEFAULT_LAYOUT):
         "perm": draw(st.integers(0, 999)),
         "pathpos": draw(_weighted([(i, 1) for i in range(10)])),
         "argerr": argerr,
+        "flip": draw(_weighted([("good", 2), ("syntax", 1), ("other", 1)])),
     }
     if argerr == "t_without_m":
         case["models"] = []
@@ -394,6 +410,7 @@ class Env:
             build_tree(r, self.layout)
         self.counter = 0
         self.verdicts = {}
+        self.flip = "good"
         env.pin_version()
         import tools.compiler as tc
 
@@ -408,6 +425,13 @@ class Env:
         if not any(isinstance(h, logging.NullHandler) for h in lg.handlers):
             lg.addHandler(logging.NullHandler())
         self.self_check()
+
+    def set_flip(self, variant):
+        """Rewrite the mutable file(s) in the tool's tree and in the reference copy."""
+        for f, variants in self.layout.get("mutable", {}).items():
+            for r in (self.root, self.ref):
+                (r / f).write_text(variants[variant], encoding="utf-8")
+        self.flip = variant
 
     def self_check(self):
         """The layout's declared file kinds must be what pymoca's parser says
@@ -488,7 +512,8 @@ def _raises(fn, *args):
 
 def model_fails(E, target, files, model, options, outdir):
     """Independent verdict for one requested model (True = fails)."""
-    key = (target, tuple(files), model, repr(sorted(options.items(), key=lambda kv: kv[0])), outdir if target == "sympy" else None)
+    key = (target, tuple(files), model, repr(sorted(options.items(), key=lambda kv: kv[0])), outdir if target == "sympy" else None,
+           E.flip if any(f in E.layout.get("mutable", {}) for f in files) else None)
     if key in E.verdicts:
         return E.verdicts[key]
     import pymoca.ast
@@ -559,8 +584,8 @@ def planted(case):
     layout = LAYOUTS[case["layout"]]
     kinds = [token_kind(layout, p) for p in case["paths"]]
     files = found_files(layout, case["paths"])
-    bad = [f for f in files if layout["files"][f][0] in (SYNTAX, ENCODING)]
-    good = [f for f in files if layout["files"][f][0] == GOOD]
+    bad = [f for f in files if file_kind(layout, f, case) in (SYNTAX, ENCODING)]
+    good = [f for f in files if file_kind(layout, f, case) == GOOD]
     u_out = 1 if case["outdir"] in ("missing", "file") else 0
     u_path = sum(1 for k in kinds if k == "missing")
     u_opt = sum(1 for o in case["opts"] if not well_formed(o))
@@ -576,6 +601,7 @@ def _tname(case):
 def check_case(ctx, case):
     E = get_env(ctx, case["layout"])
     work = make_work(E)
+    E.set_flip(case.get("flip", "good"))
     try:
         return _check(ctx, E, case, work)
     finally:
@@ -608,6 +634,8 @@ def _check(ctx, E, case, work):
             labels.append(name)
     if any(f.startswith("enc/Enc") for f in pl["bad"]):
         labels.append("feature:undecodable_file")
+    if any(f in E.layout.get("mutable", {}) for f in pl["files"]):
+        labels.append("feature:mutable_file:" + case.get("flip", "good"))
 
     def done(phase, extra_planted=0, extra_labels=()):
         n = nplanted + extra_planted
@@ -711,7 +739,7 @@ def _check(ctx, E, case, work):
 
 def shard(ctx):
     get_env(ctx, DEFAULT_LAYOUT)
-    drive(ctx, invocations(DEFAULT_LAYOUT), check_case, ctx.share(300, 10000))
+    drive(ctx, invocations(DEFAULT_LAYOUT), check_case, ctx.share(1200, 20000))
 
 
 def replay(ctx, case):
